@@ -3,19 +3,19 @@ use automerge::transaction::Transactable;
 use automerge::*;
 
 fn main() {
+    // a string that exists only as a *deleted* / overwritten value, or inside a deleted object
     let mut d = AutoCommit::new();
-    let l = d.put_object(ROOT, "l", ObjType::List).unwrap();
-    d.insert(&l, 0, 1).unwrap();
-    d.insert(&l, 1, 2).unwrap();
-    let t = d.put_object(ROOT, "t", ObjType::Text).unwrap();
-    d.splice_text(&t, 0, 0, "ab").unwrap();
-    for idx in [usize::MAX, usize::MAX - 1, usize::MAX / 2 + 1, 3] {
-        let mut d2 = d.clone();
-        let r = std::panic::catch_unwind(std::panic::AssertUnwindSafe(|| d2.insert(&l, idx, 9)));
-        println!("insert(list, {idx}) -> {:?}", r.map_err(|_| "PANIC"));
-        let mut d2 = d.clone();
-        let r = std::panic::catch_unwind(std::panic::AssertUnwindSafe(|| d2.splice_text(&t, idx, 0, "z")));
-        println!("splice_text(text, {idx}) -> {:?}", r.map_err(|_| "PANIC"));
-        println!("   text now {:?} list len {}", d2.text(&t), d2.length(&l));
+    let m = d.put_object(ROOT, "m", ObjType::Map).unwrap();
+    d.put(&m, "s", "inside").unwrap();
+    d.commit();
+    d.delete(ROOT, "m").unwrap(); // the map (and its string) is no longer reachable
+    d.commit();
+    let bytes = d.save();
+    let mut plain = AutoCommit::load(&bytes).unwrap();
+    let mut mig = AutoCommit::load_with_options(&bytes, LoadOptions::new().migrate_strings(StringMigration::ConvertToText)).unwrap();
+    println!("plain heads {:?}", plain.get_heads());
+    println!("mig   heads {:?}", mig.get_heads());
+    for c in mig.get_changes(&plain.get_heads()) {
+        println!("added change: {:#?}", c.decode().operations);
     }
 }
